@@ -13,9 +13,8 @@
                                           Hashgraph.Reset: InsertFrameEvent of the frame events in order
      C15 T itx|event|frame <object>       => ok | bad       text validation (only printed when /repo has it)
    W read / D / I inputs end with v<0|1>: Verify() of the original object.
-   Atoms: string atom h<n> is the two code points [48; 1000000+n] (sorts like the "0X.." strings it stands
-   for, as long as no literal map key starts with '0'); signature atom g<n> is the string "1|<n>" (a string
-   keys.DecodeSignature accepts, like the real signature it stands for); bytes atom k<n> is [1000+n]. *)
+   Atoms: h<n> / g<n> abbreviate the string of the preceding line `C15 A h<n> s<code points>`; the model
+   sees the real strings.  Bytes atom k<n> (a public key) is the one-element list [1000+n]. *)
 open Zutil
 module W = Wire
 
@@ -29,13 +28,21 @@ let zi = z_of_int
 let p_int s = z_of_string (next s)
 let p_optint s = let t = next s in if t = "-" then None else Some (z_of_string t)
 
+(* atoms: abbreviations defined by `C15 A <tok> s<code points>` lines *)
+let atom_def : (string, BinNums.coq_Z list) Hashtbl.t = Hashtbl.create 4096
+let atom_tok : (int list, string) Hashtbl.t = Hashtbl.create 4096
+
+let lit_str t =
+  if Stdlib.String.length t = 1 then []
+  else Stdlib.List.map z_of_string (Stdlib.String.split_on_char '.' (tail t))
+
 let p_str s =
   let t = next s in
   match Stdlib.String.get t 0 with
-  | 'h' -> [zi 48; zi (1000000 + int_of_string (tail t))]
-  | 'g' -> zi 49 :: zi 124 :: Stdlib.List.map (fun c -> zi (Char.code c)) (Stdlib.List.of_seq (Stdlib.String.to_seq (tail t)))
-  | 's' -> if Stdlib.String.length t = 1 then []
-    else Stdlib.List.map z_of_string (Stdlib.String.split_on_char '.' (tail t))
+  | 'h' | 'g' -> (match Hashtbl.find_opt atom_def t with
+      | Some l -> l
+      | None -> failwith ("C15: undefined atom " ^ t))
+  | 's' -> lit_str t
   | _ -> failwith ("C15: bad string token " ^ t)
 
 let hexv c = match c with
@@ -147,12 +154,9 @@ let tok t = if Buffer.length buf > 0 then Buffer.add_char buf ' '; Buffer.add_st
 let o_int x = tok (string_of_z x)
 let o_optint = function None -> tok "-" | Some x -> o_int x
 let o_str (l : BinNums.coq_Z list) =
-  match l with
-  | [a; b] when int_of_z a = 48 && int_of_z b >= 1000000 -> tok ("h" ^ string_of_int (int_of_z b - 1000000))
-  | a :: b :: ((_ :: _) as r) when int_of_z a = 49 && int_of_z b = 124
-                                  && Stdlib.List.for_all (fun c -> let c = int_of_z c in c >= 48 && c <= 57) r ->
-    tok ("g" ^ Stdlib.String.concat "" (Stdlib.List.map (fun c -> Stdlib.String.make 1 (Char.chr (int_of_z c))) r))
-  | _ -> tok ("s" ^ Stdlib.String.concat "." (Stdlib.List.map string_of_z l))
+  match (if l = [] then None else Hashtbl.find_opt atom_tok (Stdlib.List.map int_of_z l)) with
+  | Some t -> tok t
+  | None -> tok ("s" ^ Stdlib.String.concat "." (Stdlib.List.map string_of_z l))
 let o_bytes = function
   | None -> tok "n"
   | Some [a] when int_of_z a >= 1000 -> tok ("k" ^ string_of_int (int_of_z a - 1000))
@@ -218,6 +222,11 @@ let rec split_arrow (l : string list) : string list * string list =
 
 let handle check diff (toks : string list) (raw : string) : bool =
   match toks with
+  | "C15" :: "A" :: t :: [c] ->
+    let l = lit_str c in
+    Hashtbl.replace atom_def t l;
+    Hashtbl.replace atom_tok (Stdlib.List.map int_of_z l) t;
+    true
   | "C15" :: rest ->
     let (inp, impl) = split_arrow rest in
     let impl = Stdlib.String.concat " " impl in
